@@ -10,6 +10,10 @@ case = {
   "rest":    [further lines of the field: comment lines "#..." or continuation lines " ..."/"\\t..."],
   "tail":    [line bodies after the field: other fields, possibly a second paragraph],
   "eof_nl":  does the last line of the document end with a newline,
+  "eol":     optional, "" (default) or "\r": what stands before the "\n" of EVERY line of the document
+             ("\r": a CR LF document, as a file opened with newline="" hands it out),
+  "expect":  optional: the values the generator put into the field, in order (the enumerated sources
+             that build a field from words and blanks carry it; it must equal split_values()),
   "observe": read list(view) inside the ``with`` after every step (False: only apply the edits),
   "history": [[op, args...], ...]
 }
@@ -113,8 +117,47 @@ def comment_line_numbers(value_text):
 # case -> text
 
 
+# White space: the statement splits on / ignores "whitespace" without naming the characters; the
+# reference is Unicode white space, i.e. str.isspace() - the set `\\s` matches in a str pattern and
+# str.split() / str.strip() work on (all_white_space() checks the three lists below against it).
+#   LINE_BREAKERS  white space that str.splitlines() also takes for a line boundary.  A deb822 line
+#                  ends on "\n" alone, so these are blanks like any other; they are only used as the
+#                  LAST character of a line (the CR of a CR LF document, a form feed ending a line;
+#                  a comment line of the field ends on none of them but CR).  Anywhere else the
+#                  unchanged library already mis-reads them (it cuts value text with splitlines):
+#                  'F: a\x0cb c' -> ['a', 'c'] - reported, see props/c11.py ASSUMPTIONS
+#   ODD_BLANKS     every other white-space character besides space, tab and newline
+LINE_BREAKERS = "\x0b\x0c\r\x1c\x1d\x1e\x85\u2028\u2029"
+ODD_BLANKS = ("\x1f\xa0\u1680\u2000\u2001\u2002\u2003\u2004\u2005\u2006\u2007\u2008\u2009\u200a"
+              "\u202f\u205f\u3000")
+
+
+def all_white_space():
+    """Is " \\t\\n" + LINE_BREAKERS + ODD_BLANKS exactly the white space of this Python (str.isspace)?"""
+    import sys
+    return sorted(" \t\n" + LINE_BREAKERS + ODD_BLANKS) == \
+        [chr(c) for c in range(sys.maxunicode + 1) if chr(c).isspace()]
+
+
 def _ok_char(c):
     return c in " \t" or (c.isprintable() and not c.isspace())
+
+
+def _ok_field_line(l, comment=False):
+    """A line of the list field: _ok_char + ODD_BLANKS anywhere, one LINE_BREAKER as the last character
+    (a comment line: CR only)."""
+    if l[-1:] and l[-1] in (LINE_BREAKERS if not comment else "\r"):
+        l = l[:-1]
+    return all(_ok_char(c) or c in ODD_BLANKS for c in l)
+
+
+def line_breakers(case):
+    """The LINE_BREAKERS of an (expanded) case: what its field lines end on, plus its "eol"."""
+    found = set(case.get("eol", ""))
+    for l in [case["first"]] + list(case["rest"]):
+        if l[-1:] and l[-1] in LINE_BREAKERS:
+            found.add(l[-1])
+    return "".join(sorted(found))
 
 
 def field_lines(case):
@@ -123,14 +166,15 @@ def field_lines(case):
 
 def doc_parts(case):
     """(prefix, field text, suffix): the document is their concatenation."""
-    head = "".join(l + "\n" for l in case["head"])
+    nl = case.get("eol", "") + "\n"
+    head = "".join(l + nl for l in case["head"])
     fl = field_lines(case)
     tail = case["tail"]
     if tail:
-        ftext = "".join(l + "\n" for l in fl)
-        suffix = "\n".join(tail) + ("\n" if case["eof_nl"] else "")
+        ftext = "".join(l + nl for l in fl)
+        suffix = nl.join(tail) + (nl if case["eof_nl"] else "")
     else:
-        ftext = "\n".join(fl) + ("\n" if case["eof_nl"] else "")
+        ftext = nl.join(fl) + (nl if case["eof_nl"] else "")
         suffix = ""
     return head, ftext, suffix
 
@@ -201,9 +245,18 @@ def invalid(case):
             return "name"
         if not isinstance(case["eof_nl"], bool) or not isinstance(case["observe"], bool):
             return "flags"
-        for l in [first] + list(rest) + list(head) + list(tail):
+        for l in list(head) + list(tail):
             if not isinstance(l, str) or not all(_ok_char(c) for c in l):
                 return "characters"
+        for no, l in enumerate([first] + list(rest)):
+            if not isinstance(l, str) or not _ok_field_line(l, no > 0 and l.startswith("#")):
+                return "characters"
+        eol = case.get("eol", "")
+        if eol not in ("", "\r") or (eol and line_breakers(case) != eol):
+            return "eol"
+        if "expect" in case and not (isinstance(case["expect"], list)
+                                     and all(isinstance(v, str) for v in case["expect"])):
+            return "expect"
         names = [name.lower()]
         state = "start"
         for where, lines in (("head", head), ("field", field_lines(case)), ("tail", tail)):
@@ -213,8 +266,8 @@ def invalid(case):
                         state = "infield"
                     elif l.startswith("#"):
                         pass
-                    elif l[:1] in (" ", "\t") and l.strip(" \t") != "":
-                        pass
+                    elif l[:1] in (" ", "\t") and l.strip() != "":
+                        pass            # not blank: a line of white space only ends the paragraph
                     else:
                         return "field continuation line"
                     continue
@@ -271,7 +324,7 @@ def invalid(case):
 
 def valid_new_value(kind, v):
     """Is ``v`` a value of the list kind (one item, no surrounding blanks, no separator)?"""
-    if v == "" or v != v.strip() or not all(_ok_char(c) or c == "\n" for c in v):
+    if v == "" or v != v.strip() or not all(_ok_char(c) or c in ODD_BLANKS or c == "\n" for c in v):
         return False
     if kind == "ws":
         return len(v.split()) == 1 and "\n" not in v
@@ -279,24 +332,24 @@ def valid_new_value(kind, v):
         return False
     lines = v.split("\n")
     # a value spanning lines: "p\n q" (continuation marker included, as the view renders it)
-    return all(l[:1] in (" ", "\t") and l.strip(" \t") != "" and not l.lstrip(" \t").startswith("#")
+    return all(l[:1] in (" ", "\t") and l.strip() != "" and not l.lstrip().startswith("#")
                for l in lines[1:])
 
 
 def refusable_value(kind, v):
     """``v`` is no value of the list kind, for a reason the statement's splitting rule itself gives.
 
-    '' (an empty item), blanks around it, an embedded separator (ws: any blank; comma: ','), or a
-    line break that is not followed by a continuation marker and text.  Handing such a text to
-    append / replace / ValueReference.value must be refused (ValueError); the splitting rule could
+    '' (an empty item), blanks around it, an embedded separator (ws: any blank, ODD_BLANKS included;
+    comma: ','), or a line break that is not followed by a continuation marker and text.  Handing
+    such a text to append / replace / ValueReference.value must be refused (ValueError); the splitting rule could
     never give it back as one item.  Not in this class (nothing is demanded): blank-only texts (the
     tokenizer asserts non-blank input) and texts with a line whose first non-blank character is '#'.
     """
     if v == "":
         return True
-    if not all(_ok_char(c) or c == "\n" for c in v) or v.strip(" \t\n") == "":
+    if not all(_ok_char(c) or c in ODD_BLANKS or c == "\n" for c in v) or v.strip() == "":
         return False
-    if any(l.lstrip(" \t").startswith("#") for l in v.split("\n")):
+    if any(l.lstrip().startswith("#") for l in v.split("\n")):
         return False
     return not valid_new_value(kind, v)
 
@@ -386,13 +439,18 @@ NEW_VALUE = {
     "ws": ws_word,
     "comma": st.one_of(cm_item, cm_item, cm_item, cm_item,
                        st.builds(lambda a, m, b: a + "\n" + m + b, cm_word,
-                                 st.sampled_from([" ", "\t", "  "]), cm_word)),
+                                 st.sampled_from([" ", "\t", "  "]), cm_word),
+                       # an odd blank inside an item is part of the value
+                       st.builds(lambda a, s, b: a + s + b, cm_word,
+                                 st.sampled_from(["\xa0", "\u3000", " \u2009"]), cm_word)),
 }
 
 
 # texts that are no value of the kind (see refusable_value); "", "y, z", " z" are refused by both kinds
-BAD_VALUES = {"ws": ["", "y z", "y, z", " z", "z ", "y\tz", "y\n z", "z\n", "amd64 i386"],
-              "comma": ["", "y, z", "y,z", " z", "z ", ",", "z,", ",z", "y\nz", "z\n", "a (>= 1), b"]}
+BAD_VALUES = {"ws": ["", "y z", "y, z", " z", "z ", "y\tz", "y\n z", "z\n", "amd64 i386",
+                     "y\xa0z", "z\u3000", "\u2003z"],
+              "comma": ["", "y, z", "y,z", " z", "z ", ",", "z,", ",z", "y\nz", "z\n", "a (>= 1), b",
+                        "\xa0z", "z\u3000"]}
 BAD_VALUE = {
     "ws": st.one_of(st.sampled_from(BAD_VALUES["ws"]),
                     st.builds(lambda a, s, b: a + s + b, ws_word, ws_sep, ws_word),
@@ -470,6 +528,36 @@ _name = st.sampled_from(NAMES)
 _eof = st.sampled_from([True, True, True, False])
 _observe = st.sampled_from([True, True, False])
 _noop = st.integers(0, 9)
+# white space other than space and tab: in 3 cases of 8 up to three blanks of the field are swapped
+# for ODD_BLANKS (never a continuation marker); in 1 of 8 the document is a CR LF document or some
+# lines of the field end on one of the LINE_BREAKERS
+_nodd = st.sampled_from([0, 0, 0, 0, 0, 1, 2, 3])
+_oddchar = st.sampled_from(list("\xa0\u3000\x1f\u2003\u202f\xa0\u3000" + ODD_BLANKS))
+_pos = st.integers(0, 63)
+_ending = st.sampled_from(["", "", "", "", "", "", "", "\r", "", "", "", "", "", "", "", "line"])
+_breaker = st.sampled_from(list("\r\x0c\x0b\x85\u2028" + LINE_BREAKERS))
+_mask = st.integers(1, 63)
+
+
+def _odd_blanks(draw, first, rest):
+    """(first, rest, eol) with some blanks swapped for odd ones / line breakers at line ends."""
+    lines = [first] + list(rest)
+    for _ in range(draw(_nodd)):
+        spots = [(i, j) for i, l in enumerate(lines) for j, c in enumerate(l)
+                 if c in " \t" and (i == 0 or j > 0)]
+        if not spots:
+            break
+        i, j = spots[draw(_pos) % len(spots)]
+        lines[i] = lines[i][:j] + draw(_oddchar) + lines[i][j + 1:]
+    ending = draw(_ending)
+    if ending == "line":
+        c, mask = draw(_breaker), draw(_mask)
+        if not any(mask >> i & 1 for i in range(len(lines))):
+            mask = 1
+        lines = [l + c if mask >> i & 1 and (c == "\r" or i == 0 or not l.startswith("#")) else l
+                 for i, l in enumerate(lines)]
+        ending = ""
+    return lines[0], lines[1:], ending
 _reopens = st.integers(0, 2)
 _noop_op = st.sampled_from([("reopen",), ("reopen",), ("reenter",), ("read", "refs"), ("read", "iter"),
                             ("formatter", "lib", None), ("probe_open", "refs"), ("probe_close",),
@@ -483,12 +571,16 @@ def gen_case(draw, maxops=5, maxlines=4):
     """maxops in (5, 8), maxlines in (4, 6)."""
     kind = draw(_kind)
     first, rest = _list_field(draw, kind, maxlines)
+    first, rest, eol = _odd_blanks(draw, first, rest)
     hist = [op for chunk in draw(HISTORY[(kind, maxops)]) for op in chunk]
     if draw(_noop) == 0:
         hist = [draw(_noop_op) for _ in range(draw(_reopens))]      # the no-op family
-    return {"kind": kind, "name": draw(_name), "head": draw(_head),
+    case = {"kind": kind, "name": draw(_name), "head": draw(_head),
             "first": first, "rest": rest, "tail": draw(_tail), "eof_nl": draw(_eof),
             "observe": draw(_observe), "history": [list(op) for op in hist]}
+    if eol:
+        case["eol"] = eol
+    return case
 
 
 # ------------------------------------------------------------------------------------------
@@ -665,4 +757,107 @@ def enum_sizes(tier):
                     no += 1
                     yield {"kind": kind, "name": "F", "head": ["A: 1"], "layout": layout,
                            "tail": ["Z: 2"], "eof_nl": True, "observe": no % 3 != 0, "history": h}
+    return gen
+
+
+# ------------------------------------------------------------------------------------------
+# white space other than space, tab and newline.  Every layout is written down together with the
+# values it holds ("expect": what the words and items are, not the result of splitting anything);
+# "~" stands for the white-space character under test, which is substituted in both.
+#   ODD_LAYOUTS      "~" = each of ODD_BLANKS, anywhere a blank may stand: the only separator between
+#                    two words, next to ordinary blanks, directly after the colon / the continuation
+#                    marker, at the end of a line, doubled, alone on the first line, in a comment line;
+#                    inside a comma item (there it belongs to the value), around commas, as an item of
+#                    its own (= an empty item).  Read and edited in every way.
+#   BREAKER_LAYOUTS  "~" = each of LINE_BREAKERS, as the last character of lines only (no comment lines)
+#   CRLF_LAYOUTS     plain layouts in a document whose every line ends on CR LF
+# Fields holding LINE_BREAKERS are read (all read forms), opened and closed, handed refused values;
+# see props/c11.py (ASSUMPTIONS) for which edits are made on them.
+
+ODD_LAYOUTS = {
+    "ws": [(" a~b c", [" d"], ["a", "b", "c", "d"]),
+           (" a b~", [" d~"], ["a", "b", "d"]),
+           (" a ~ b", [" ~d", "\te"], ["a", "b", "d", "e"]),
+           ("~a", [" d~~e", "# c~x", " f"], ["a", "d", "e", "f"]),
+           (" a", ["# ~", " ~ b ~ "], ["a", "b"]),
+           ("~", ["\ta~b~c"], ["a", "b", "c"])],
+    "comma": [(" a~b, c", [" ,d"], ["a~b", "c", "d"]),
+              (" a, b~,", [" d~, e"], ["a", "b", "d", "e"]),
+              (" a ~, ~b", [" ,~d"], ["a", "b", "d"]),
+              ("~a,", [" d~~e", "# c~,", " ,f"], ["a", "d~~e", "f"]),
+              (" a,~,b", [" ~,~ c ~ "], ["a", "b", "c"]),
+              ("~", ["\ta~,~b ~ c"], ["a", "b ~ c"]),
+              (" a, b~", [" ~c,d"], ["a", "b~\n ~c", "d"])],
+}
+BREAKER_LAYOUTS = {
+    "ws": [(" a b~", [" d~"], ["a", "b", "d"]),
+           ("~", [" a~", "# c", "\tb c~"], ["a", "b", "c"]),
+           (" a b~", [" d"], ["a", "b", "d"]),
+           (" a", [" b ~", " c"], ["a", "b", "c"])],
+    "comma": [(" a, b~", [" d~"], ["a", "b~\n d"]),
+              ("~", [" a,~", "# c", "\tb c~"], ["a", "b c"]),
+              (" a, b ,~", [" d"], ["a", "b", "d"]),
+              (" a", [" ,b ~", " ,c"], ["a", "b", "c"])],
+}
+CRLF_LAYOUTS = {
+    "ws": [(" a b", [" c"], ["a", "b", "c"]),
+           ("", [" a ", "# c", "\tb  c"], ["a", "b", "c"]),
+           (" a", [], ["a"])],
+    "comma": [(" a, b", [" , c"], ["a", "b", "c"]),
+              ("", [" a,", "# c,", "\tb c ,"], ["a", "b c"]),
+              (" a, b", [" c"], ["a", "b\r\n c"]),
+              (" a", ["# c", " b, c"], ["a\r\n b", "c"])],
+}
+# (head, tail, eof_nl): the field in the middle / last and unterminated / before a second paragraph
+SURROUNDINGS = [(["A: 1"], ["Z: 2"], True), (["A: 1", "# about F"], [], False),
+                (["A: 1"], ["Z:", " 2", "", "Q: 4"], True)]
+
+
+def odd_histories(kind, n, c, level):
+    """level 0: nothing is written back; 1: + edits of existing values; 2: + appends."""
+    if c in LINE_BREAKERS:
+        c = " "                 # new values and comment texts never hold a line breaker
+    bad = "y" + c + "z" if kind == "ws" else c + "z"
+    hs = [[], [["read", "refs"]], [["read", "iter"], ["reenter"], ["read", "refs"]], [["reopen"]],
+          [["probe_open", "refs"], ["reopen"], ["probe_close"]], [["probe_open", "iter"]],
+          [["append", bad]], [["replace", n - 1, bad], ["reenter"]], [["ref_set", 0, "z" + c, True]],
+          [["remove_absent", "a" + c]]]
+    if level >= 1:
+        for i in range(n):
+            hs += [[["remove", i]], [["replace", i, "z"]], [["ref_set", i, "z", True]],
+                   [["ref_remove", i, i % 2 == 0]]]
+        hs += [[["reformat"], ["remove", 0]], [["formatter", "lib", True]], [["drain", True]],
+               [["replace", 0, bad], ["remove", n - 1]]]
+    if level >= 2:
+        hs += [[["append", "z"]], [["reformat"], ["append", "z"]], [["append_newline"], ["append", "z"]],
+               [["append_comment", "c"], ["append", "z"]], [["append", bad], ["append", "z"]],
+               [["append", "z"], ["remove", 0], ["reopen"], ["append", "y"]]]
+        if kind == "comma":
+            hs += [[["append", "y" + c + "z"]], [["replace", 0, "y " + c + "z"]],
+                   [["append_separator", True], ["append", "z"]]]
+    return hs
+
+
+def enum_odd_blanks():
+    def gen():
+        if not all_white_space():
+            raise AssertionError("harness: LINE_BREAKERS + ODD_BLANKS are not this Python's white space")
+        no = 0
+        for kind in KINDS:
+            for layouts, chars, eol in ((ODD_LAYOUTS, ODD_BLANKS, ""), (BREAKER_LAYOUTS, LINE_BREAKERS, ""),
+                                        (CRLF_LAYOUTS, "\r", "\r")):
+                for lno, (first, rest, expect) in enumerate(layouts[kind]):
+                    for c in chars:
+                        level = 2 if chars is ODD_BLANKS else 1 if c == "\r" else 0
+                        n = len(expect)
+                        for h in odd_histories(kind, n, c, level):
+                            no += 1
+                            head, tail, eof_nl = SURROUNDINGS[0 if no % 4 else 1 + no // 4 % 2]
+                            case = {"kind": kind, "name": "F", "head": head,
+                                    "first": first.replace("~", c), "rest": [r.replace("~", c) for r in rest],
+                                    "tail": tail, "eof_nl": eof_nl, "observe": no % 3 != 0, "history": h}
+                            case["expect"] = [v.replace("~", c) for v in expect]
+                            if eol:
+                                case["eol"] = eol
+                            yield case
     return gen
